@@ -10,7 +10,8 @@ PID = "C12"
 RULE = (
     "Samples with 3-5 target classes (int labels, str labels, labels whose string order differs from numeric "
     "order), 1-3 features of every kind, optional dev sample (same class set), every BinaryCarver parameter incl. "
-    "non-default min_freq_mod, dropna, output_dtype, copy. Oracle: differential against independently constructed "
+    "non-default min_freq_mod, dropna, output_dtype, copy, and values_orders holding a previous grouping of a "
+    "categorical feature. Oracle: differential against independently constructed "
     "BinaryCarvers: classes sorted as strings; for each class c except the first a BinaryCarver with the same "
     "parameters is fitted on 1[str(y)==c] (fresh copies of every input); column f_c exists in "
     "MulticlassCarver.transform(X) iff that carver kept f and equals its transform(X)[f]; raw columns are present "
@@ -23,8 +24,29 @@ BUDGET = {"quick": 320, "thorough": 12000}
 DEADLINE_S = {"quick": 220, "thorough": 3300}
 
 
+@st.composite
+def strategy_case(draw):
+    case = draw(fitted_case(("MulticlassCarver",), dev_modes=("none", "none", "same", "perturbed", "independent")))
+    # a third of the cases hand over a previous discretization of the string-valued categorical features through
+    # values_orders (groups of 1-3 values, every value listed): a BinaryCarver parameter like any other
+    pregrouped = {}
+    for f in case["features"]:
+        if f["kind"] == "categorical" and f.get("flavour") == "str" and len(f["values"]) >= 3 and draw(st.integers(0, 2)) == 0:
+            values = [v for v in f["values"]]
+            groups, i = [], 0
+            while i < len(values):
+                size = draw(st.integers(1, 3))
+                chunk = values[i : i + size]
+                groups.append([chunk[-1], chunk])
+                i += size
+            pregrouped[f["name"]] = groups
+    if pregrouped:
+        case["config"]["pregrouped"] = pregrouped
+    return case
+
+
 def strategy(tier):
-    return fitted_case(("MulticlassCarver",), dev_modes=("none", "none", "same", "perturbed", "independent"))
+    return strategy_case()
 
 
 def check_case(case) -> Outcome:
@@ -35,6 +57,8 @@ def check_case(case) -> Outcome:
     has_dev = sample.X_dev is not None
     if has_dev:
         out.label("dev")
+    if cfg.get("pregrouped"):
+        out.label("pregrouped-categorical-values_orders")
 
     def fit(obj, y, y_dev):
         if has_dev:
